@@ -1,6 +1,10 @@
 package simrt
 
-import "time"
+import (
+	"runtime"
+	"time"
+	"unsafe"
+)
 
 // clock is the simulated clock of a run: the only clock the library reads
 // (time.Now/Since/Until/Sleep/After/Tick in the scratch copy are re-pointed
@@ -21,6 +25,10 @@ type simTimer struct {
 	period time.Duration
 	ch     chan time.Time
 	dead   bool
+	key    interface{}  // the real *time.Timer / *time.Ticker this entry stands for
+	rt     *time.Timer  // NewTimer: deliver on rt.C
+	tk     *time.Ticker // NewTicker: deliver on tk.C
+	fn     func()       // AfterFunc: run as a task
 }
 
 var simEpoch = time.Date(2026, 1, 1, 0, 0, 0, 0, time.UTC)
@@ -51,6 +59,7 @@ func (s *Sim) advance(t time.Duration) {
 				default:
 				}
 			}
+			tm.fireReal(s)
 			s.Counters[CtTimersFired]++
 			if tm.period > 0 {
 				tm.at += tm.period
@@ -169,4 +178,161 @@ func Tick(d time.Duration) <-chan time.Time {
 	tm := &simTimer{at: s.now + d, period: d, ch: make(chan time.Time, 1)}
 	s.addTimer(tm)
 	return tm.ch
+}
+
+// Timers and tickers. The library keeps a real *time.Timer / *time.Ticker
+// (their types cannot be faked), armed for the far future; the simulator
+// decides when it fires: the real timer is reset to "now" and the simulator
+// waits until its channel holds the tick, so delivery happens at a
+// deterministic point. Stop and Reset calls are re-pointed here as well.
+
+const farFuture = 1000000 * time.Hour
+
+//go:norace
+func (s *Sim) findTimer(key interface{}) *simTimer {
+	for i := 0; i < len(s.timers); i++ {
+		if s.timers[i].key == key {
+			return s.timers[i]
+		}
+	}
+	return nil
+}
+
+// fireReal makes the real timer or ticker behind tm deliver now. It is a
+// named //go:norace method and not a closure: closures are instrumented even
+// inside //go:norace functions, and this code reads fields the time package
+// wrote from inside a task.
+//
+//go:norace
+func (tm *simTimer) fireReal(s *Sim) {
+	switch {
+	case tm.rt != nil:
+		if len(tm.rt.C) == 0 {
+			tm.rt.Reset(time.Nanosecond)
+			for len(tm.rt.C) == 0 {
+				runtime.Gosched()
+			}
+		}
+		tm.rt.Reset(farFuture)
+	case tm.tk != nil:
+		if len(tm.tk.C) == 0 { // an unread tick is pending otherwise: the new one is dropped, as in the runtime
+			tm.tk.Reset(time.Nanosecond)
+			for len(tm.tk.C) == 0 {
+				runtime.Gosched()
+			}
+		}
+		tm.tk.Reset(farFuture)
+	case tm.fn != nil:
+		s.startTask("timer-func", tm.fn)
+	}
+}
+
+// NewTimer replaces time.NewTimer.
+//
+//go:norace
+func NewTimer(d time.Duration) *time.Timer {
+	s := cur
+	if !s.inTask() {
+		return time.NewTimer(d)
+	}
+	s.timeUsed = true
+	rt := time.NewTimer(farFuture)
+	tm := &simTimer{at: s.now + d, key: rt, rt: rt}
+	s.addTimer(tm)
+	return rt
+}
+
+// AfterFunc replaces time.AfterFunc: f runs as a simulated task of its own.
+//
+//go:norace
+func AfterFunc(d time.Duration, f func()) *time.Timer {
+	s := cur
+	if !s.inTask() {
+		return time.AfterFunc(d, f)
+	}
+	s.timeUsed = true
+	rt := time.AfterFunc(farFuture, func() {})
+	tm := &simTimer{at: s.now + d, key: rt}
+	// The call AfterFunc(d, f) happens before f runs.
+	raceReleaseMerge(unsafe.Pointer(rt))
+	tm.fn = func() {
+		raceAcquire(unsafe.Pointer(rt))
+		f()
+	}
+	s.addTimer(tm)
+	return rt
+}
+
+// NewTicker replaces time.NewTicker.
+//
+//go:norace
+func NewTicker(d time.Duration) *time.Ticker {
+	s := cur
+	if !s.inTask() || d <= 0 {
+		return time.NewTicker(d)
+	}
+	s.timeUsed = true
+	rt := time.NewTicker(farFuture)
+	tm := &simTimer{at: s.now + d, period: d, key: rt, tk: rt}
+	s.addTimer(tm)
+	return rt
+}
+
+// TimerStop replaces t.Stop().
+//
+//go:norace
+func TimerStop(t *time.Timer) bool {
+	s := cur
+	if s != nil {
+		if tm := s.findTimer(t); tm != nil {
+			active := !tm.dead
+			tm.dead = true
+			t.Stop()
+			return active
+		}
+	}
+	return t.Stop()
+}
+
+// TimerReset replaces t.Reset(d).
+//
+//go:norace
+func TimerReset(t *time.Timer, d time.Duration) bool {
+	s := cur
+	if s != nil {
+		if tm := s.findTimer(t); tm != nil {
+			active := !tm.dead
+			tm.dead = false
+			tm.at = s.now + d
+			return active
+		}
+	}
+	return t.Reset(d)
+}
+
+// TickerStop replaces t.Stop() on a ticker.
+//
+//go:norace
+func TickerStop(t *time.Ticker) {
+	if s := cur; s != nil {
+		if tm := s.findTimer(t); tm != nil {
+			tm.dead = true
+		}
+	}
+	t.Stop()
+}
+
+// TickerReset replaces t.Reset(d) on a ticker.
+//
+//go:norace
+func TickerReset(t *time.Ticker, d time.Duration) {
+	if s := cur; s != nil {
+		if tm := s.findTimer(t); tm != nil && d > 0 {
+			tm.dead = false
+			tm.period = d
+			tm.at = s.now + d
+			return
+		}
+	}
+	t.Reset(d)
 }
